@@ -5,6 +5,7 @@ PROPERTY_MODULES.update({
     "C01": "contracts.C01_rates",
     "C02": "contracts.C02_likelihood",
     "C03": "contracts.C03_interpolators",
+    "C04": "contracts.C04_primitives",
     "C05": "contracts.C05_fits",
     "C06": "contracts.C06_test_statistics",
     "C07": "contracts.C07_asymptotics",
